@@ -768,12 +768,19 @@ def drive_generic(env, g, b, h):
     call(g, 'get_link_properties', node_a=b['switch'], node_b=b['nodes'][-1])
     call(g, 'get_link_properties', node_a=b['server'], node_b=pick_id(env, b['comps']))
     # node property updates
+    fac_ = b['nodes'][-1]
     call(g, 'update_node_property', node_id=pick_id(env, allids), prop_name=rng.choice([A.PROP_NAME, A.PROP_DETAILS, 'Custom_1']),
          prop_val=v('pv'))
     call(g, 'update_node_property', node_id=b['server'], prop_name=A.PROP_CAPACITY_ALLOCATIONS, prop_val=caps(rng).to_json())
     call(g, 'update_node_properties', node_id=pick_id(env, allids),
          props={A.PROP_DETAILS: v('details'), A.PROP_CAPACITIES: caps(rng).to_json(), 'Custom_2': v('x'), 'Num': 7})
     call(g, 'update_node_properties', node_id=b['server'], props={})
+    # values that are None (a caller clearing fields in bulk): one, two next to each other, several among ordinary ones
+    call(g, 'update_node_properties', node_id=b['server'], props={A.PROP_DETAILS: None})
+    call(g, 'update_node_properties', node_id=b['server'], props={A.PROP_LABELS: None, A.PROP_CAPACITIES: None})
+    call(g, 'update_node_properties', node_id=pick_id(env, allids),
+         props={'Custom_2': v('x'), A.PROP_LABELS: None, A.PROP_DETAILS: v('details'), 'Custom_4': None, A.PROP_CAPACITY_HINTS: None})
+    call(g, 'update_link_properties', node_a=b['switch'], node_b=fac_, kind=A.REL_HAS, props={'Weight': None, 'Colour': None})
     call(g, 'unset_node_property', node_id=pick_id(env, allids), prop_name=rng.choice([A.PROP_DETAILS, 'Custom_1']))
     call(g, 'unset_node_property', node_id=b['server'], prop_name=A.PROP_NAME)      # refused: NO_UNSET
     call(g, 'update_nodes_property', prop_name=rng.choice(['Custom_3', A.PROP_DETAILS]), prop_val=v('all'))
